@@ -21,6 +21,7 @@ pub mod c16;
 pub mod c17;
 pub mod c18;
 pub mod c19;
+pub mod c20;
 
 pub struct PropDef {
     pub id: &'static str,
@@ -71,4 +72,5 @@ registry! {
     "C17" => c17,
     "C18" => c18,
     "C19" => c19,
+    "C20" => c20,
 }
